@@ -155,7 +155,9 @@ func (self *VM) spawnCore() *Core {
 	self.Cores.Lock.Lock()
 	defer self.Cores.Lock.Unlock()
 
-	ch := make(chan *value.VmInterrupt)
+	// Buffered, so that a core can always deliver its result and exit, even if `Wait` has already
+	// returned because of another core's interrupt and will never receive from this channel.
+	ch := make(chan *value.VmInterrupt, 1)
 	core := NewCore(
 		&self.Program.Functions,
 		hostcall,
